@@ -95,6 +95,19 @@ pub fn gen(tier: &str, seed: u64) -> Gen {
         cases.push(cmd(vec![s("lindex"), ls.clone(), (rng.below(4) as i64 - 1).to_string(), (rng.below(3) as i64 - 1).to_string()]));
         cases.push(cmd(vec![s("lindex"), ls.clone(), format!("{} {}", rng.below(3), rng.below(3))]));
         cases.push(cmd(vec![s("lindex"), ls.clone(), s("x")]));
+        // index paths mixing in-range, out-of-range and non-integer operands in every order
+        {
+            let pool = ["0", "1", "-1", "7", "x", "1.5", ""];
+            let k = 2 + rng.below(2);
+            let path: Vec<String> = (0..k).map(|_| pool[rng.below(pool.len())].to_string()).collect();
+            let mut c = vec![s("lindex"), ls.clone()];
+            if rng.chance(1, 2) {
+                c.extend(path.iter().cloned());
+            } else {
+                c.push(Value::from(path.iter().map(|p| Value::from(p.as_str())).collect::<Vec<Value>>()).as_str().to_string());
+            }
+            cases.push(cmd(c));
+        }
         cases.push(cmd(vec![s("join"), ls.clone(), pick(&mut rng, &short)]));
         cases.push(cmd(vec![s("join"), ls.clone()]));
         m += 7;
